@@ -308,22 +308,12 @@ mod verif_kani {
         }
     }
 
-    // C27.single_vote + C28: responses keep the vote memory and the commit index
-    #[kani::proof]
-    #[kani::unwind(5)]
-    fn c27_responses_keep_vote_memory() {
+    // C27.single_vote + C28: responses keep the vote memory and the commit index (one harness per kind
+    // of request that is being answered; the response itself is arbitrary)
+    fn response_to(data: RequestType<u8>) {
         let mut c = any_cluster();
         let granted = any_granted();
         kani::assume(inv(&c, granted));
-        // (a candidate that becomes leader takes the term of the vote: covered by the harness above)
-        kani::assume(!matches!(c.state, ClusterState::Candidate));
-        let k: u8 = kani::any();
-        kani::assume(k < 3);
-        let data = match k {
-            0 => RequestType::PreVote,
-            1 => RequestType::Vote,
-            _ => RequestType::Heartbeat,
-        };
         let request = any_sent_request(&c, data);
         let response = any_response(&c);
         let commit_before = c.local().log_commit;
@@ -333,6 +323,24 @@ mod verif_kani {
         assert!(c.local().log_commit >= commit_before);
         // C27.term_monotone
         assert!(c.term >= term_before);
+    }
+
+    #[kani::proof]
+    #[kani::unwind(5)]
+    fn c27_prevote_response_keeps_vote_memory() {
+        response_to(RequestType::PreVote);
+    }
+
+    #[kani::proof]
+    #[kani::unwind(5)]
+    fn c27_vote_response_keeps_vote_memory() {
+        response_to(RequestType::Vote);
+    }
+
+    #[kani::proof]
+    #[kani::unwind(5)]
+    fn c27_heartbeat_response_keeps_vote_memory() {
+        response_to(RequestType::Heartbeat);
     }
 
     // C28.leader_commit_rule: the leader advances its commit index to i only when a majority of nodes
